@@ -15,15 +15,24 @@
      end theorem extended to values whose float leaves satisfy `FloatOK` (ryu meets its specification
      `RyuSpec`; default build: shortest form within the exactness window, as the property states;
      build without fast-float-parsing: every finite double).
-  Not covered by the theorem: byte-vector leaves inside the structural theorem (the token-level
-  theorem `atomRT_bytes` exists) and float leaves outside the window in the default build (the
-  property asks only for C05 accuracy there); both are carried by the correspondence and the oracle.
+   * every leaf kind and every source (LexprModel/Proofs/FullRT.lean, imported here):
+     `C01_roundtrip_full`, `C01_roundtrip_full_sources` — for every value whose leaves are #nil, booleans,
+     integers, floats satisfying `FloatOK`, scalar characters, valid UTF-8 strings, plain-identifier
+     symbols and keywords and ANY byte vectors, nesting at most 127, the text of the default printer is
+     read by the default parser from a &str, a byte slice or a (fault-free) stream as exactly that value,
+     consuming everything and restoring the depth budget; `C01_text_valid` (the text is valid UTF-8,
+     which is what makes the &str source applicable); `C01_roundtrip_plain` (names with a non-ASCII
+     alphabetic initial).
+  Not covered by the theorem: float leaves outside the exactness window in the default build (the
+  property asks only for C05 accuracy there, proved in Props/C05 as `C05_accuracy`); they are carried by
+  the correspondence and the oracle.
   Also proved here: all print entry points produce the same bytes, no folding in the default pairing.
 -/
 import LexprModel.Props.C07
 import LexprModel.Props.C02
 import LexprModel.Proofs.ListRTGlue
 import LexprModel.Proofs.Decimals
+import LexprModel.Proofs.FullRT
 namespace Lexpr
 
 /-- **C01_roundtrip** (proved for every value without floats and byte vectors; see the header):
@@ -37,6 +46,15 @@ theorem C01_roundtrip (cfg : Parse.Cfg) (ho : cfg.opts = Parse.Options.default)
     ∃ s', Parse.fromTrait cfg (Parse.initSt .slice (Print.text Print.Options.default ryu v)) = .ok v s' ∧
       s'.rd.rest = [] ∧ s'.depth = 128 :=
   Parse.ListRT.C01_roundtrip_supported cfg ho ryu v h hn
+
+/-- **C01_roundtrip_all_sources**: the same for every leaf kind (floats that are exactly readable, byte
+    vectors included) and for each of the three input sources. -/
+theorem C01_roundtrip_all_sources (cfg : Parse.Cfg) (ho : cfg.opts = Parse.Options.default)
+    (ryu : Nat → List UInt8) (v : Value) (h : FullRT.AllSupportedFull cfg ryu v)
+    (hn : Parse.ListRT.nesting v ≤ 127) (m : Parse.Mode) :
+    ∃ s', Parse.fromTrait cfg (Parse.initSt m (Print.text Print.Options.default ryu v)) = .ok v s' ∧
+      s'.rd.rest = [] ∧ s'.depth = 128 :=
+  FullRT.C01_roundtrip_full_sources cfg ho ryu v h hn m
 
 /-- to_string / to_vec / to_writer / Display all run the same printer: same emissions, same text -/
 theorem C01_entry_points (ryu : Nat → List UInt8) (v : Value) :
